@@ -20,12 +20,12 @@ from hxsim.stepclock import SimAbort, SimTimeout, StepBudgetExceeded, StepClock
 
 PROPERTY = 'C02'
 STREAMS = {
-    'history': {'quick': 6000, 'thorough': 250000, 'chunk': 150},
-    'hostlists': {'quick': 2500, 'thorough': 60000, 'chunk': 100},   # H3 slice: host lists into every function
+    'history': {'quick': 6000, 'thorough': 200000, 'chunk': 150},
+    'hostlists': {'quick': 2500, 'thorough': 40000, 'chunk': 100},   # H3 slice: host lists into every function
     # an asynchronous interrupt at EVERY step of an evaluation in turn, probes judged after each
-    'intsweep': {'quick': 100, 'thorough': 4000, 'chunk': 4, 'selftest_max': 6},
+    'intsweep': {'quick': 100, 'thorough': 2500, 'chunk': 4, 'selftest_max': 6},
     # the live-object census on generated formulas: one formula repeated, growth measured
-    'leak': {'quick': 2000, 'thorough': 80000, 'chunk': 40, 'selftest_max': 30},
+    'leak': {'quick': 2000, 'thorough': 60000, 'chunk': 40, 'selftest_max': 30},
 }
 
 CLOCKS = ['2024-02-29T13:14:15.161718', '2024-02-29T23:59:59.999999', '2024-03-01T00:00:00', '1900-01-01T00:00:00',
@@ -755,6 +755,14 @@ def execute(sc, stats):  # noqa: F811  (dispatch: census replays vs histories)
 
 def _all_census_violations(sc):
     return []
+
+
+def evidence_extra(total):
+    days = sorted(k[12:-1] for k in total if k.startswith('probe:clock['))
+    return {'simulated_clock_span': [days[0], days[-1]] if days else [],
+            'simulated_clock_distinct_days': len(days),
+            'simulated_time_note': 'time base inside an evaluation = executed lines (simulated_steps); between operations the '
+                                   'simulated wall clock jumps (forwards, backwards, across midnight, 1900-02-28/03-01, 9999-12-31)'}
 
 
 def describe():
